@@ -49,6 +49,7 @@ type c13 struct {
 	parent, prev, next, first, last, index, opcode, pool, head *types.Var
 	newObject, appendM, appendAfter, detach, free, objectAt   *ssa.Function
 	invalid, freed                                             uint64
+	objT                                                       *types.Named
 }
 
 // objExpr renders the identity of an Object pointer: a parameter name, or
@@ -57,14 +58,25 @@ func (x *c13) objExpr(v ssa.Value) string {
 	v = strip(v)
 	switch t := v.(type) {
 	case *ssa.Parameter:
+		// the role of an *Object parameter of a tree method is its position
+		// (container, element, neighbour); its name is free
+		if fn := t.Parent(); fn != nil && fn.Signature.Recv() != nil {
+			roles := []string{"obj", "arg", "nextTo"}
+			k := 0
+			for _, p := range fn.Params[1:] {
+				if !typeIs(p.Type(), x.objT) {
+					continue
+				}
+				if p == t && k < len(roles) {
+					return roles[k]
+				}
+				k++
+			}
+		}
 		return t.Name()
 	case *ssa.Call:
 		if x.m.callee(t.Common()) == x.objectAt {
 			return "ObjectAt(" + x.valExpr(t.Common().Args[1]) + ")"
-		}
-	case *ssa.Phi:
-		if t.Comment != "" {
-			return "phi:" + t.Comment
 		}
 	case *ssa.UnOp:
 		if t.Op == token.MUL {
@@ -115,6 +127,35 @@ func (x *c13) linkStores(g *IG) []linkStore {
 			out = append(out, linkStore{n, x.objExpr(base), f, x.valExpr(st.Val), st})
 		}
 	}
+	// Store forwarding: after `X.f = E` the link X.f holds E, so an object
+	// named ObjectAt(E) afterwards is ObjectAt(X.f). The canonical name uses
+	// the link (as if the code re-read X.f), provided the store precedes on
+	// every path and X.f is not written in between.
+	for i := range out {
+		s := &out[i]
+		if !strings.HasPrefix(s.obj, "ObjectAt(") {
+			continue
+		}
+		e := strings.TrimSuffix(strings.TrimPrefix(s.obj, "ObjectAt("), ")")
+		for _, t := range out {
+			if t.n == s.n || t.val != e || strings.HasPrefix(t.obj, "ObjectAt(") || t.obj+"."+t.field.Name() == e {
+				continue
+			}
+			if ok, _ := g.MustPassBefore(s.n, func(k int) bool { return k == t.n }); !ok {
+				continue
+			}
+			clobbered := false
+			for _, u := range out {
+				if u.n != t.n && u.obj == t.obj && u.field == t.field && g.Reach(g.Succ[t.n], nil, nil)[u.n] && g.Reach(g.Succ[u.n], nil, nil)[s.n] {
+					clobbered = true
+				}
+			}
+			if !clobbered {
+				s.obj = "ObjectAt(" + t.obj + "." + t.field.Name() + ")"
+				break
+			}
+		}
+	}
 	return out
 }
 
@@ -122,6 +163,7 @@ func runC13(c *Ctx) {
 	m := c.K
 	const aml = "device/acpi/aml"
 	x := &c13{c: c, m: m}
+	x.objT = m.lookupType(aml, "Object")
 	f := func(t, n string) *types.Var { return m.fieldOf(aml, t, n) }
 	x.parent, x.prev, x.next, x.first, x.last = f("Object", "parentIndex"), f("Object", "prevSiblingIndex"), f("Object", "nextSiblingIndex"), f("Object", "firstArgIndex"), f("Object", "lastArgIndex")
 	x.index, x.opcode, x.pool, x.head = f("Object", "index"), f("Object", "opcode"), f("ObjectTree", "objPool"), f("ObjectTree", "freeListHeadIndex")
@@ -781,7 +823,7 @@ func (x *c13) findDispatch() {
 	// each caret moves to the parent: scope = ObjectAt(scope).parentIndex, Invalid ends the lookup
 	parentStep := false
 	for _, in := range g.Ins {
-		if phi, ok := in.(*ssa.Phi); ok && phi.Comment == "scopeIndex" {
+		if phi, ok := in.(*ssa.Phi); ok && isIntegral(phi.Type()) {
 			for _, e := range phi.Edges {
 				if b, f, ok := loadedField(e); ok && f == x.parent {
 					if call, ok := b.(*ssa.Call); ok && m.callee(call.Common()) == x.objectAt {
@@ -798,24 +840,45 @@ func (x *c13) findDispatch() {
 	}
 	c.check(bad == "", "C13.R4", "caret-and-length "+m.fnName(find), "'^' moves to the parent scope; len(expr) > amlNameLen selects the downward-only lookup", bad, m.pos(find.Pos()))
 	// the single-segment search walks the parent chain and compares all amlNameLen bytes
-	upward := false
-	for _, in := range g.Ins {
-		if phi, ok := in.(*ssa.Phi); ok && phi.Comment == "nextScopeIndex" {
-			for _, e := range phi.Edges {
-				if _, f, ok := loadedField(e); ok && f == x.parent {
-					upward = true
-				}
-			}
-		}
-	}
-	cmpAll := hasFactAnywhere(g, func(f Fact) bool {
+	// a scope variable that steps to ObjectAt(scope).parentIndex in a loop that
+	// contains the comparison of all amlNameLen name bytes
+	upward, cmpAll := false, false
+	var cmpNodes []int
+	for _, f := range g.AllEdgeFacts() {
 		if f.Y == nil || f.Op != token.LSS {
-			return false
+			continue
 		}
 		k, ok := constUint64(f.Y)
 		_, isPhi := f.X.(*ssa.Phi)
-		return ok && k == nameLen && isPhi
-	})
+		if ok && k == nameLen && isPhi {
+			cmpAll = true
+			cmpNodes = append(cmpNodes, f.Edge.From)
+		}
+	}
+	for _, in := range g.Ins {
+		phi, ok := in.(*ssa.Phi)
+		if !ok || !isIntegral(phi.Type()) {
+			continue
+		}
+		steps := false
+		for _, e := range phi.Edges {
+			if b, f, ok := loadedField(e); ok && f == x.parent {
+				if call, ok := b.(*ssa.Call); ok && m.callee(call.Common()) == x.objectAt && call.Common().Args[1] == ssa.Value(phi) {
+					steps = true
+				}
+			}
+		}
+		if !steps {
+			continue
+		}
+		hn := g.Idx[phi]
+		fromH := g.Reach([]int{hn}, nil, nil)
+		for _, cn := range cmpNodes {
+			if fromH[cn] && g.Reach(g.Succ[cn], nil, nil)[hn] {
+				upward = true
+			}
+		}
+	}
 	c.check(upward && cmpAll, "C13.R4", "upward-search "+m.fnName(find), "single-segment names are searched in the scope and then each enclosing scope, comparing all amlNameLen bytes",
 		"the single-segment search does not walk the parent chain comparing all name bytes", m.pos(find.Pos()))
 }
